@@ -329,6 +329,7 @@ impl World {
             let mut m = HashMap::new();
             for (k, e) in l {
                 let key = self.resolve_key(k);
+                resolved.retain(|(k2, _): &(String, Eval)| k2 != &key);
                 resolved.push((key.clone(), e.clone()));
                 m.insert(key, val(e));
             }
